@@ -96,6 +96,17 @@ func c17Term(name string) string {
 
 var c17Terms = []string{"lf", "crlf", "cr"}
 
+// c17TermsMixed adds documents whose lines end differently from line to line (files edited on several systems).
+var c17TermsMixed = []string{"lf", "crlf", "cr", "mixed", "lf", "crlf", "cr"}
+
+// c17BuildTerm is the terminator argument of c17Build: a sentinel selects a terminator per line.
+func c17BuildTerm(name string) string {
+	if name == "mixed" {
+		return "\x00mixed"
+	}
+	return c17Term(name)
+}
+
 // c17Locate returns the 1-based line of byte offset p in b and the extent
 // [start,end) of that line without its terminator. LF, CRLF and a lone CR
 // each end a line. p == len(b) addresses the end of input.
